@@ -91,13 +91,12 @@ def dict_depth(d: dict) -> int:
         int: depth
     """
     try:
-        return 1 + dict_depth(next(iter(d.values())))
+        # The deepest value decides: an empty first entry ({"empty_db": {}, "db": {...}})
+        # says nothing about the levels below it
+        return 1 + max((dict_depth(v) for v in d.values()), default=0)
     except AttributeError:
         # d doesn't have attribute "values"
         return 0
-    except StopIteration:
-        # d.values() returns an empty sequence
-        return 1
 
 
 async def aiterate(iterable: AsyncIterable[T] | Iterable[T]) -> AsyncIterator[T]:
